@@ -424,6 +424,16 @@ func (cr *checkRun) report(start time.Time, evPath string) int {
 	}
 	// bounded stand-ins (never counted as proved)
 	bounded := runBounded(prop, cr.tier)
+	// assumption audits (thorough tier): the real libraries against the model axioms
+	var audits []*auditRun
+	if cr.tier == "thorough" {
+		audits = runAudits(prop)
+	}
+	// must-fail corpus (thorough tier): the seeded changes of this property must be detected
+	var corpus map[string]any
+	if cr.tier == "thorough" && os.Getenv("GOAVC_REPO") == "" {
+		corpus = runCorpus(prop)
+	}
 	// classify failures. Frame obligations of one function are reported together.
 	violations := 0
 	var knownHit []string
@@ -515,6 +525,14 @@ func (cr *checkRun) report(start time.Time, evPath string) int {
 			lines = append(lines, fmt.Sprintf("VIOLATION property=%s replay=%s no-failing-input-found", prop, rp))
 		}
 	}
+	for _, a := range audits {
+		if len(a.Failures) > 0 || a.Error != "" {
+			violations++
+			rp := writeReplay(prop, "audit."+a.Name, fmt.Sprintf("property: %s\nbroken ASSUMPTION (the proofs that use it are void): audit %s — %s\nfailures: %v\n%s\n\n--- output ---\n%s\n", prop, a.Name, a.What, a.Failures, a.Error, a.Output))
+			lines = append(lines, fmt.Sprintf("VIOLATION property=%s replay=%s", prop, rp))
+			lines = append(lines, fmt.Sprintf("  assumption audit %s failed: %v %s", a.Name, a.Failures, a.Error))
+		}
+	}
 	if total == 0 {
 		violations++
 		rp := writeReplay(prop, "no-obligations", "the check generated no obligations (vacuous)")
@@ -558,6 +576,8 @@ func (cr *checkRun) report(start time.Time, evPath string) int {
 			"known_findings_hit":        knownHit,
 			"contract_drift":            cr.drift,
 			"bounded_standins":          bounded,
+			"assumption_audits":         audits,
+			"must_fail_corpus":          corpus,
 			"lemmas":                    len(cr.lemmaObls),
 		},
 		"assumptions": assumptions,
@@ -702,4 +722,96 @@ func runBounded(prop, tier string) []*boundedRun {
 		out = append(out, b)
 	}
 	return out
+}
+
+type auditRun struct {
+	Name       string   `json:"name"`
+	Pkg        string   `json:"pkg"`
+	File       string   `json:"file"`
+	Run        string   `json:"run"`
+	Properties []string `json:"properties"`
+	What       string   `json:"what"`
+	Evaluated  int      `json:"evaluated"`
+	Failures   []string `json:"failures"`
+	Error      string   `json:"error,omitempty"`
+	Output     string   `json:"-"`
+}
+
+// runAudits executes the assumption audits registered for a property: small
+// tests that run the real dependency against the axioms of its model.
+func runAudits(prop string) []*auditRun {
+	data, err := os.ReadFile(filepath.Join(verifRoot(), "audits", "index.json"))
+	if err != nil {
+		return nil
+	}
+	var all []*auditRun
+	if json.Unmarshal(data, &all) != nil {
+		return nil
+	}
+	var out []*auditRun
+	for _, a := range all {
+		if !hasProp(a.Properties, prop) {
+			continue
+		}
+		src, err := os.ReadFile(filepath.Join(verifRoot(), a.File))
+		if err != nil {
+			a.Error = err.Error()
+			out = append(out, a)
+			continue
+		}
+		o, _ := runOverlayTest(modPath+"/"+a.Pkg, string(src), a.Run)
+		a.Output = o
+		seen := false
+		for _, ln := range strings.Split(o, "\n") {
+			if strings.HasPrefix(ln, "AUDIT-FAIL ") {
+				a.Failures = append(a.Failures, strings.TrimPrefix(ln, "AUDIT-FAIL "))
+			}
+			if strings.HasPrefix(ln, "AUDIT-STATS ") {
+				seen = true
+				fmt.Sscanf(strings.TrimPrefix(ln, "AUDIT-STATS "), "evaluated=%d", &a.Evaluated)
+			}
+		}
+		if !seen {
+			a.Error = "audit did not complete"
+		}
+		out = append(out, a)
+	}
+	return out
+}
+
+// runCorpus re-applies the seeded changes recorded for the property (scratch
+// worktrees, through seedcheck.sh with the quick tier) and counts how many the
+// check detects. It never turns into a violation of the property.
+func runCorpus(prop string) map[string]any {
+	dirs, _ := filepath.Glob(filepath.Join(verifRoot(), "seeded", "*"))
+	sort.Strings(dirs)
+	total, caught := 0, 0
+	var missed []string
+	for _, d := range dirs {
+		data, err := os.ReadFile(filepath.Join(d, "meta.json"))
+		if err != nil {
+			continue
+		}
+		var meta struct {
+			Property string `json:"property"`
+		}
+		if json.Unmarshal(data, &meta) != nil || meta.Property != prop {
+			continue
+		}
+		total++
+		cmd := exec.Command(filepath.Join(verifRoot(), "seedcheck.sh"), d, prop)
+		out, _ := cmd.Output()
+		lines := strings.Split(strings.TrimSpace(string(out)), "\n")
+		var r struct {
+			Checks []struct {
+				Exit int `json:"exit"`
+			} `json:"checks"`
+		}
+		if len(lines) > 0 && json.Unmarshal([]byte(lines[len(lines)-1]), &r) == nil && len(r.Checks) > 0 && r.Checks[0].Exit == 1 {
+			caught++
+		} else {
+			missed = append(missed, filepath.Base(d))
+		}
+	}
+	return map[string]any{"seeded_changes": total, "detected": caught, "missed": missed}
 }
